@@ -43,6 +43,8 @@ func init() {
 const tuPkg = "pkg/timeutil."
 
 func runC13(c *eng.Ctx) {
+	everyFamilyOfTheSegmentExamined(c)
+	overlapIsAClosedIntervalTest(c)
 	acceptedIntervalsArePositive(c)
 	rowsInsideFirstRowsFamilyRange(c)
 	rollupSlotBaseIsTheFamilyStart(c)
